@@ -1,6 +1,7 @@
 package main
 
 import (
+	"crypto/sha256"
 	"fmt"
 	"sort"
 	"time"
@@ -651,4 +652,65 @@ var tModGap2 = Template{Name: "modgap2", Consumer: "C1", Service: "a", Providers
 func modSelfStartRun(o []Oracle, mon MonFlags, d, b, m int) RunSpec {
 	return RunSpec{Name: "mod-start-in-response-callback", Sc: withFunds(scModSelfStart(paramSet("0.1", "0.001"), []Template{tModGap, tModGap2},
 		AlphaOpts{RespKinds: []string{"ok"}, ModOps: []string{"mpause", "mstart"}}, d, b, m), 40, 5), Oracles: o, Mon: mon}
+}
+
+// ---------------------------------------------------------------------------------------------
+// magnitudes that ordinary use never reaches
+
+// actCreateMany: a host module creates n one-shot contexts (each under its own transaction hash) while handling one message.
+func actCreateMany(n int, consumer, provider string) Action {
+	return Action{Name: fmt.Sprintf("mcreate(x%d)", n), Kind: "mcreate", Tmpl: -1, Signer: A(consumer),
+		Mod: func(ctx sdk.Context, k servicekeeperT) error {
+			for i := 0; i < n; i++ {
+				h := sha256.Sum256([]byte(fmt.Sprintf("many-%d", i)))
+				c := ctx.WithValue(st.TxHash, h[:]).WithValue(st.MsgIndex, int64(0))
+				if _, err := k.CreateRequestContext(c, "a", []sdk.AccAddress{A(provider)}, A(consumer), inputOK, coins(5), 1, false, false, 0, 0, st.RUNNING, 0, ""); err != nil {
+					return err
+				}
+			}
+			return nil
+		}}
+}
+
+// scManyContexts: 129 contexts become due in one block.
+func scManyContexts(ps ParamSet, depth, blocks, msgs int) *Scenario {
+	sc := scLife(ps, []Template{tOne}, AlphaOpts{RespKinds: []string{"ok"}, BindOps: []Action{actCreateMany(129, "C1", "P2")}}, depth, blocks, msgs)
+	sc.Name = "S-LIFE(129 contexts due in one block)"
+	sc.Funds = lifeFunds(400, 5)
+	return sc
+}
+
+// scManyBindings: 101 bindings of one service (providers may be any byte strings), one more bound along the way.
+func scManyBindings(ps ParamSet, depth, blocks, msgs int) *Scenario {
+	sc := &Scenario{Name: "S-BIND(101 bindings of one service)", Params: ps, Funds: []Funding{{O1, 5000}, {O2, 100}, {C1, 20}}, Extra: allAccounts,
+		Setup: []Action{actDefine("a", "AU"), actDefine("ab", "AU")}, Depth: depth, MaxBlocks: blocks, MaxMsgs: msgs}
+	for i := 0; i < 101; i++ {
+		prov := sdk.AccAddress([]byte(fmt.Sprintf("many-provider-%03d", i)))
+		sc.Setup = append(sc.Setup, Action{Name: fmt.Sprintf("bind(a,#%d)", i), Kind: "bind", Svc: "a", Prov: prov, Signer: O1, Tmpl: -1,
+			Msg: st.NewMsgBindService("a", prov, coins(10), pricingText("p1"), 1, "{}", O1)})
+	}
+	sc.Alpha = lifeAlpha(AlphaOpts{BindOps: []Action{actBind("a", "P1", "O1", 10, "p1", 1), actBind("ab", "P1", "O1", 10, "p1", 1), actBind("a", "P2", "O2", 10, "p1", 1)}})
+	return sc
+}
+
+// scCounter255: a repeated context whose batch counter stands at 254 (as after 254 batches): the next batches are
+// number 255, 256 and 257. The counter is put there by the scenario's setup, between two batches.
+var tInf255 = Template{Name: "inf255", Consumer: "C1", Service: "a", Providers: []string{"P1", "P2"}, Cap: 5, Timeout: 1, Repeated: true, Freq: 1, Total: -1}
+
+func scCounter255(ps ParamSet, depth, blocks, msgs int) *Scenario {
+	sc := withFunds(scLife(ps, []Template{tInf255}, AlphaOpts{RespKinds: []string{"ok"}, CtxOps: []string{"pause", "start"}}, depth, blocks, msgs), 40, 5)
+	sc.Name = "S-LIFE(batch counter at 254)"
+	ffwd := Action{Name: "fast-forward(inf255,254)", Kind: "install", Tmpl: -1, Signer: XX,
+		Mod: func(ctx sdk.Context, k servicekeeperT) error {
+			id := sc.CtxID(0)
+			rc, ok := k.GetRequestContext(ctx, id)
+			if !ok {
+				return fmt.Errorf("no context")
+			}
+			rc.BatchCounter = 254
+			k.SetRequestContext(ctx, id, rc)
+			return nil
+		}}
+	sc.Setup = append(sc.Setup, sc.actCall(0), ffwd)
+	return sc
 }
